@@ -1,9 +1,9 @@
 (* Correspondence for C38: sequential operation sequences run on the real sql.LockSubsystem are replayed
    through the atomic sequential specification (Sys/Locks.v seq_step); every return value, GetLockState of
    every name of the universe after every call, and the session's own lock set are compared. *)
-From Coq Require Import List NArith Bool.
+From Coq Require Import List NArith ZArith Bool.
 Import ListNotations.
-From GMS Require Import Base.CorrLib Sys.Locks.
+From GMS Require Import Base.CorrLib Sys.Locks Sys.C38Sql.
 Open Scope N_scope.
 
 Definition ret_eqb (a b : ret) : bool :=
@@ -39,7 +39,9 @@ Definition next_sset (t : N) (o : op) (before after : seq_state) (r : ret) (cur 
    (state, owner) pairs), the session's lock set afterwards (IterLocks, ascending) *)
 Inductive stobs := St (st owner : N).
 Inductive item := It (t : N) (o : op) (r : ret) (states : list stobs) (myset : list N).
-Inductive case := Case (l : list item).
+(* one SQL statement (or a client disconnect) of session t with the value the client received *)
+Inductive sitem := SI (t : N) (o : sqlop) (v : option sqlval).
+Inductive case := Case (l : list item) | SqlCase (l : list sitem).
 
 Fixpoint states_ok (s : seq_state) (n : N) (obs : list stobs) : bool :=
   match obs with
@@ -60,7 +62,42 @@ Fixpoint replay (s : seq_state) (ss : list (N * list N)) (l : list item) : bool 
       replay s' ((t, cur') :: ss) rest
   end.
 
-Definition ok (c : case) : bool := let 'Case l := c in replay [] [] l.
+Definition sqlval_eqb (a b : option sqlval) : bool :=
+  match a, b with
+  | None, None | Some VNull, Some VNull => true
+  | Some (VInt x), Some (VInt y) => N.eqb x y
+  | _, _ => false
+  end.
+
+(* the LockSubsystem call behind a statement, for the session-set bookkeeping *)
+Definition under (o : sqlop) : option op :=
+  match o with
+  | SGet n tmo => Some (if Z.eqb tmo 0 then OTry n else OLock n)
+  | SRel n => Some (OUnlock n)
+  | _ => None
+  end.
+
+Fixpoint sreplay (s : seq_state) (ss : list (N * list N)) (l : list sitem) : bool :=
+  match l with
+  | [] => true
+  | SI t o v :: rest =>
+      let cur := ss_get ss t in
+      let '(s', v') := sql_step t o cur s in
+      let cur' := match o with
+                  | SDisconnect => []
+                  | _ => match under o with
+                         | Some u => next_sset t u s s' (snd (seq_step t u cur s)) cur
+                         | None => cur
+                         end
+                  end in
+      sqlval_eqb v' v && sreplay s' ((t, cur') :: ss) rest
+  end.
+
+Definition ok (c : case) : bool :=
+  match c with
+  | Case l => replay [] [] l
+  | SqlCase l => sreplay [] [] l
+  end.
 
 Definition mismatches (cs : list (N * case)) : list N :=
   map fst (filter (fun p => negb (ok (snd p))) cs).
